@@ -107,10 +107,81 @@ type c18entry struct {
 	key string
 	fn  *ssa.Function
 	pos token.Pos
+	env map[*ssa.FreeVar]ssa.Value // closure made by a factory: free variable -> the factory call's argument
 	// classification
 	identity bool
 	charmap  *ssa.Global
 	why      string
+}
+
+// c18Factory: the table value is the result of calling a repository function that returns a closure over (only) its
+// own parameters; returns the closure body and, per free variable, the argument passed at this call.
+func c18Factory(v ssa.Value) (*ssa.Function, map[*ssa.FreeVar]ssa.Value) {
+	for {
+		if ct, ok := v.(*ssa.ChangeType); ok {
+			v = ct.X
+			continue
+		}
+		break
+	}
+	call, ok := v.(*ssa.Call)
+	if !ok {
+		return nil, nil
+	}
+	g := call.Call.StaticCallee()
+	if g == nil || g.Blocks == nil || !core.InRepo(core.FuncPkg(g)) || len(g.Params) != len(call.Call.Args) {
+		return nil, nil
+	}
+	rets := c19Returns(g)
+	if len(rets) != 1 || len(rets[0].Results) != 1 {
+		return nil, nil
+	}
+	rv := rets[0].Results[0]
+	if ct, ok := rv.(*ssa.ChangeType); ok {
+		rv = ct.X
+	}
+	mc, ok := rv.(*ssa.MakeClosure)
+	if !ok {
+		return nil, nil
+	}
+	fn, _ := mc.Fn.(*ssa.Function)
+	if fn == nil || len(fn.FreeVars) != len(mc.Bindings) {
+		return nil, nil
+	}
+	env := map[*ssa.FreeVar]ssa.Value{}
+	for i, b := range mc.Bindings {
+		// a captured parameter lives in a cell that is stored exactly once, from the parameter
+		al, ok := b.(*ssa.Alloc)
+		if !ok {
+			return nil, nil
+		}
+		var src ssa.Value
+		n := 0
+		for _, u := range core.Referrers(al) {
+			if st, ok := u.(*ssa.Store); ok && st.Addr == ssa.Value(al) {
+				n++
+				src = st.Val
+			}
+		}
+		p, ok := src.(*ssa.Parameter)
+		if n != 1 || !ok {
+			return nil, nil
+		}
+		for j, gp := range g.Params {
+			if gp == p {
+				env[fn.FreeVars[i]] = call.Call.Args[j]
+			}
+		}
+	}
+	// the cells must not be written inside the closure
+	for _, fv := range fn.FreeVars {
+		for _, u := range core.Referrers(fv) {
+			if st, ok := u.(*ssa.Store); ok && st.Addr == ssa.Value(fv) {
+				return nil, nil
+			}
+		}
+	}
+	return fn, env
 }
 
 // c18Classify decides what the closure of a table entry returns.
@@ -155,6 +226,12 @@ func c18Classify(e *c18entry) {
 			var g *ssa.Global
 			if ok && ld.Op == token.MUL {
 				g, _ = ld.X.(*ssa.Global)
+				if fv, isFV := ld.X.(*ssa.FreeVar); isFV && e.env != nil {
+					// captured factory parameter: the argument of the factory call at the table entry
+					if al, ok := e.env[fv].(*ssa.UnOp); ok && al.Op == token.MUL {
+						g, _ = al.X.(*ssa.Global)
+					}
+				}
 			}
 			if g == nil || g.Pkg == nil || !strings.HasPrefix(g.Pkg.Pkg.Path(), c18EncodingPkg+"/") {
 				e.why = "NewDecoder is not called on a package-level encoding of golang.org/x/text/encoding/..."
@@ -272,6 +349,9 @@ func runC18(c *core.Ctx) {
 								continue
 							}
 							e := &c18entry{key: ks, fn: c18FuncOf(y.Value), pos: core.InstrPos(y)}
+							if e.fn == nil {
+								e.fn, e.env = c18Factory(y.Value)
+							}
 							entries[ks] = e
 							keys = append(keys, ks)
 						case *ssa.Store, *ssa.DebugRef:
